@@ -578,15 +578,15 @@ def splice(fname, modpath, src, overlay, used, lost, opts=None, shapes=None):
         if it.kind != 'fn':
             continue
         key = fn_key(modpath, it)
-        if key in drop_contract:
-            # the contract text itself no longer fits this function (e.g. renamed parameters): no contract, body not verified;
-            # ./check treats every caller of it as undecided
-            overlay.lookup(key, used)
+        ov = overlay.lookup(key, used)
+        if key in drop_contract or (key in drop and ov is None):
+            # the contract text itself no longer fits this function (e.g. renamed parameters), or a function without a contract
+            # does not compile in the extracted crate: no contract, body not verified; ./check treats every caller of it as undecided
             if it.body_open is not None:
                 ed.add(it.header_start, it.header_start, '#[verifier::external_body]\n    ', 'OV')
+                ed.add(it.body_open, it.end, '{ unimplemented!() }', 'OV')
             lost.append((key, 'contract does not compile against the edited function'))
             continue
-        ov = overlay.lookup(key, used)
         if ov is None:
             head = src[it.header_start:it.body_open] if it.body_open is not None else ''
             if it.body_open is not None and not re.search(r'\b(spec|proof|axiom)\s+fn\b', head) and 'external_body' not in src[max(0, it.header_start - 120):it.header_start]:
@@ -615,7 +615,9 @@ def splice(fname, modpath, src, overlay, used, lost, opts=None, shapes=None):
             if base_kinds is not None and key in base_kinds and base_kinds[key] != kinds:
                 lost.append((key, 'loop structure changed (%s -> %s): the loop invariants were written for another shape' % (' '.join(base_kinds[key]), ' '.join(kinds))))
         if key in drop:
-            lost.append((key, 'proof annotations do not compile against the edited body'))
+            lost.append((key, 'the edited body (or the proof annotations spliced into it) does not get through the front end'))
+            if it.body_open is not None:
+                ed.add(it.body_open, it.end, '{ unimplemented!() }', 'OV')      # external_body bodies are still compiled by rustc
         for k, lp in ov['loops'].items():
             if k < 1 or k > len(it.loops):
                 lost.append((key, 'loop %d (function has %d loops)' % (k, len(it.loops))))
